@@ -7,6 +7,8 @@ from sa.query import Facts, call_name, find_calls, try_fold, calls_in, defs_of
 from sa.prov import Prov
 from . import c06
 from .c06 import _strip, _purity
+from .common import expansions, canon_text, prop_expand
+from sa.decide import return_values
 
 TECHNIQUE = ("provenance expansion of each element type's verdict expression against the specified "
              "construction, dominance of every non-False return by the binding-hash comparison / "
@@ -168,8 +170,8 @@ def _digest_element(run, F, PV, cls, want_expected, want_field, want_msg, label)
     if label == "sgx_attestation_key":
         for nm in ("get_pubkey", "key"):
             m = P.method(cls, nm)
-            rr = [n for n in A.own_nodes(m) if isinstance(n, ast.Return)]
-            run.check(rid, len(rr) == 1 and norm(rr[0].value) == "ecdsa.VerifyingKey.from_string(self._key, ecdsa.NIST256p)",
+            rv_ = {_strip(prop_expand(run, PV, cls, v)) for v in return_values(A, m, cls, PV)}
+            run.check(rid, rv_ == {_strip("ecdsa.VerifyingKey.from_string(self._key, ecdsa.NIST256p)")},
                       f"{label}.{nm} is the P-256 key of the element", key=f"{cls.name}.{nm}|expr", where=m.loc(),
                       message=f"{cls.name}.{nm} does not build the NIST P-256 key from the element's `key`")
 
@@ -239,18 +241,20 @@ def _x509(run, F, PV, X):
     for r in [n for n in A.own_nodes(gp) if isinstance(n, ast.Return)]:
         for rn in gg.nodes_of(r):
             ok = any(f.kind == "call" and f.pol and call_name(f.expr) == "isinstance"
-                     and norm(f.expr.args[1]) == "ec.SECP256R1" for f in F.local(gp, X, rn))
+                     and canon_text(run, gp, X, norm(f.expr.args[1])) == "ec.SECP256R1" for f in F.local(gp, X, rn))
             run.check("R3", ok, "x509.get_pubkey only for SECP256R1 keys", key="HSMCertificateV2ElementX509.get_pubkey|curve",
                       where=gp.loc(r), message="x509.get_pubkey returns a key without checking the curve is NIST P-256")
-            got = {_strip(v) for v in PV.expand_consistent(gp, X, r.value, rn)}
-            want = _strip("ecdsa.VerifyingKey.from_string(self.certificate.public_key().public_bytes(Encoding.X962, "
-                          "PublicFormat.CompressedPoint), ecdsa.NIST256p)")
+            got = {_strip(v) for v in expansions(run, PV, gp, X, r.value, rn)}
+            want = _strip(canon_text(run, gp, X, "ecdsa.VerifyingKey.from_string(self.certificate.public_key().public_bytes(Encoding.X962, "
+                                     "PublicFormat.CompressedPoint), ecdsa.NIST256p)"))
             run.check("R3", got == {want}, "x509.get_pubkey is the certificate's own key",
                       key="HSMCertificateV2ElementX509.get_pubkey|expr", where=gp.loc(r),
                       message=f"x509.get_pubkey returns {sorted(got)[:1]}")
     cp = P.method(X, "certificate")
     loads = [n for n in A.own_nodes(cp) if isinstance(n, ast.Call) and call_name(n) == "load_pem_x509_certificate"]
-    run.check("R3", len(loads) == 1 and norm(loads[0].args[0]) == "(self.HEADER_BEGIN + self.message + self.HEADER_END).encode()",
+    gc_ = A.cfg(cp, X)
+    src_ = {_strip(v) for ld in loads for ln in gc_.nodes_of(ld) for v in expansions(run, PV, cp, X, ld.args[0], ln)} if loads and loads[0].args else set()
+    run.check("R3", len(loads) == 1 and src_ == {_strip(canon_text(run, cp, X, "(self.HEADER_BEGIN + self.message + self.HEADER_END).encode()"))},
               "x509.certificate parses the element's own message", key="HSMCertificateV2ElementX509.certificate|source",
               where=cp.loc(), message="x509.certificate is not parsed from the element's message")
 
